@@ -24,7 +24,7 @@ import (
 
 // FileSpec describes one file DAG to be written.
 type FileSpec struct {
-	Writer    string `json:"writer"` // builder | boxo-balanced | boxo-trickle | odd | odd-noblocksizes | single-raw | single-pb | single-pb-nodata
+	Writer    string `json:"writer"` // builder | boxo-balanced | boxo-trickle | odd | odd-noblocksizes | odd-partial-meta | single-raw | single-pb | single-pb-nodata
 	Size      int    `json:"size"`
 	Chunker   string `json:"chunker"`
 	Width     int    `json:"width"`
@@ -66,7 +66,7 @@ func DrawFileSpec(t *tape.Tape, o FileOpts) FileSpec {
 		writers = append(writers, "odd", "odd")
 	}
 	if o.AllowNoSizes && !o.OnlyBuilder {
-		writers = append(writers, "odd-noblocksizes")
+		writers = append(writers, "odd-noblocksizes", "odd-partial-meta")
 	}
 	s.Writer = writers[t.Intn(len(writers))]
 	// chunk size: small so that kilobytes give deep trees
@@ -85,7 +85,7 @@ func DrawFileSpec(t *tape.Tape, o FileOpts) FileSpec {
 		s.Chunker = []string{"size-262144", "", "default", "rabin", "buzhash"}[csz%5]
 		csz = 262144
 	}
-	s.Width = []int{2, 3, 4, 5, 8, 174}[t.Pick(4, 4, 2, 2, 1, 1)]
+	s.Width = []int{2, 3, 4, 5, 8, 174, 300}[t.Pick(4, 4, 2, 2, 1, 1, 1)]
 	// size: biased to chunk-count boundaries w^k-1, w^k, w^k+1
 	max := o.MaxSize
 	if max <= 0 {
@@ -201,7 +201,7 @@ func WriteFile(st *store.Store, s FileSpec) (cid.Cid, []byte, error) {
 		setBuilder(n, s.CidV1)
 		st.Put(n.Cid(), n.RawData())
 		return n.Cid(), nil, nil
-	case "odd", "odd-noblocksizes":
+	case "odd", "odd-noblocksizes", "odd-partial-meta":
 		c, err := writeOdd(st, content, s, s.Writer == "odd-noblocksizes")
 		return c, content, err
 	}
@@ -349,6 +349,21 @@ func writeOdd(st *store.Store, content []byte, s FileSpec, noSizes bool) (cid.Ci
 					u.HasMtime, u.MtimeSec = true, []int64{0, 1, 1700000000, -1, -86400 * 365}[r.Next()%5]
 				default:
 					u.HasMtime, u.MtimeSec, u.HasNanos, u.MtimeNanos = true, -int64(r.Next()%100000), true, uint32(r.Next()%1000000000)
+				}
+				b = u.Encode()
+			}
+		}
+		if s.Writer == "odd-partial-meta" {
+			// each interior node on its own keeps or drops the two optional
+			// size records: filesize only, blocksizes only, neither, both
+			if u, ok := DecodeRawUnixFS(b); ok {
+				switch r2.Next() % 4 {
+				case 0:
+					u.HasFileSize, u.FileSize = false, 0
+				case 1:
+					u.BlockSizes = nil
+				case 2:
+					u.HasFileSize, u.FileSize, u.BlockSizes = false, 0, nil
 				}
 				b = u.Encode()
 			}
